@@ -391,6 +391,18 @@ pub fn generate(prop: &str, tier: &str, seed: u64, out: &mut impl Write) {
                     if f % 16 == 3 { w!("#@ C02 EXC C{f:02X} {k}"); w!("excenc EXC C{f:02X} {k} 2 00"); }
                 }
             }
+            // read-exception-status responses (the one serial-line-only kind the crate encodes)
+            for x in 0..=255u32 { w!("rspenc RES {x} 4 A5"); w!("rspdec 07{x:02X}"); w!("rspdec 07{x:02X}5A"); w!("#@ C02 RES {x}"); }
+            w!("rspdec 07");
+            // coil containers taken from decoded PDUs (a request may carry set padding bits; a response carries whole bytes)
+            for q in [1usize, 3, 4, 7, 8, 9, 15, 17, 2033, 2039] { for dirty in [false, true] {
+                let need = (q + 7) / 8; let mut d = r.bytes(need);
+                if q % 8 != 0 { if dirty { d[need - 1] |= 0x80; } else { d[need - 1] &= (1u8 << (q % 8)) - 1; } }
+                let mut p = vec![0x0Fu8, 0x12, 0x34, (q / 256) as u8, (q % 256) as u8, need as u8]; p.extend(d); let h = hex_of(&p);
+                for k in ["RCS", "RDIS"] { w!("rspenc {k} Q{h} 300 A5"); w!("#@ C02 {k} Q{h}"); }
+            } }
+            for bc in [1usize, 2, 255] { let mut p = vec![1u8, bc as u8]; p.extend(r.bytes(bc)); let h = hex_of(&p);
+                for k in ["RCS", "RDIS"] { w!("rspenc {k} P{h} 300 A5"); w!("#@ C02 {k} P{h}"); } }
             // the whole exception decode table
             for a in 0..=255u32 { for b in 0..=255u32 { if tier == "thorough" || (a >= 0x7E && a <= 0x82) || a % 37 == 0 || b <= 12 { w!("excdec {a:02X}{b:02X}"); } } }
             for _ in 0..scale(tier, 1500, 40000) {
@@ -406,6 +418,17 @@ pub fn generate(prop: &str, tier: &str, seed: u64, out: &mut impl Write) {
             }
         }
         "C03" => {
+            for x in [0u32, 1, 0x55, 0x80, 0xFF] { w!("pduenc RES {x} 2 A5"); w!("#@ C03 rsp RES {x}"); w!("specrsp RES {x}"); }
+            // a decoded write-multiple-coils request may carry set padding bits: re-encoded, or its coils placed
+            // in another PDU, the bytes produced must still have zero padding
+            for q in [1usize, 3, 4, 7, 9, 15, 17, 2033, 2039] { for dirty in [false, true] {
+                let need = (q + 7) / 8; let mut d = r.bytes(need);
+                if dirty { d[need - 1] |= 0x80; } else { d[need - 1] &= (1u8 << (q % 8)) - 1; }
+                let mut p = vec![0x0Fu8, 0x12, 0x34, (q / 256) as u8, (q % 256) as u8, need as u8]; p.extend(d); let h = hex_of(&p);
+                w!("reqenc WMCS 16 Q{h} 300 A5"); w!("#@ C03 req WMCS 16 Q{h}");
+                w!("pduenc RCS Q{h} 300 A5"); w!("#@ C03 rsp RCS Q{h}");
+                w!("pduenc RDIS Q{h} 300 A5"); w!("#@ C03 rsp RDIS Q{h}");
+            } }
             for _ in 0..scale(tier, 1500, 40000) {
                 let (m, s) = gen_req(r, false);
                 w!("reqenc {s} {} {}", req_bytes(&m).len(), fill_tok(r));
@@ -826,6 +849,12 @@ pub fn generate(prop: &str, tier: &str, seed: u64, out: &mut impl Write) {
                     }
                 }
             }
+            // coil quantities no one-byte count can describe, with enough data bytes behind them (only reachable
+            // through Request::try_from directly: an ADU PDU is cut at the byte count)
+            for (q, bc, nd) in [(2041u16, 255u8, 256usize), (2048, 255, 256), (2048, 0, 256), (2047, 255, 256), (4000, 1, 500), (0xFFFF, 0, 8192), (0xFFFF, 255, 8192), (2040, 255, 255), (2040, 255, 256)] {
+                let mut p = vec![0x0Fu8, 0, 0, (q >> 8) as u8, q as u8, bc]; p.extend(r.bytes(nd));
+                emit("req", &p, out, r);
+            }
             // quantities whose doubling wraps in 16 bits (2*q mod 65536 equals the byte count)
             for k in [0u16, 1, 2, 0x7F] { for fc in [0x10u8, 0x17] {
                 let q = 0x8000u16 + k; let bc = (2 * k) as u8;
@@ -1020,9 +1049,8 @@ pub fn generate(prop: &str, tier: &str, seed: u64, out: &mut impl Write) {
                 let mut d = r.bytes(bc);
                 if !dirty && q % 8 != 0 { d[need - 1] &= (1u8 << (q % 8)) - 1; }
                 let mut p = vec![0x0Fu8, 0x12, 0x34, (q / 256) as u8, (q % 256) as u8, bc as u8]; p.extend(d); let h = hex_of(&p);
-                // dirty padding is forwarded as received: only the model/crate comparison applies to it
                 w!("reqenc WMCS 7 Q{h} 300 A5"); w!("rspenc RCS Q{h} 300 A5"); w!("rspenc RDIS Q{h} 300 A5");
-                if !dirty { w!("#@ C19 req WMCS 7 Q{h}"); w!("#@ C19 rsp RCS Q{h}"); w!("#@ C19 rsp RDIS Q{h}"); }
+                w!("#@ C19 req WMCS 7 Q{h}"); w!("#@ C19 rsp RCS Q{h}"); w!("#@ C19 rsp RDIS Q{h}");
             } } }
             // coils decoded from a request whose data is SHORTER than its quantity needs (open finding D5b region), reused
             for (q, bc) in [(4usize, 0usize), (9, 1), (17, 1)] {
